@@ -109,7 +109,7 @@ def polyFun (c0 c1 c2 c3 c4 : K) : IFun K :=
 /-! ## `Interval::sin`, `Interval::cos` -/
 
 /-- the `RealField` operations and constants the two functions use -/
-structure Trig (K : Type) where
+structure TrigOps (K : Type) where
   sin : K → K
   cos : K → K
   floor : K → K
@@ -118,7 +118,7 @@ structure Trig (K : Type) where
   fracPi2 : K
 
 /-- `Interval::sin` -/
-def Interval.sin (T : Trig K) (x : Interval K) : Interval K :=
+def Interval.sin (T : TrigOps K) (x : Interval K) : Interval K :=
   if T.twoPi ≤ x.width then ⟨-1, 1⟩ else
     let sin0 := T.sin x.lo
     let sin1 := T.sin x.hi
@@ -130,7 +130,7 @@ def Interval.sin (T : Trig K) (x : Interval K) : Interval K :=
     if x.contains c1 || x.contains (c1 + T.twoPi) then r1.enclose (-1) else r1
 
 /-- `Interval::cos` -/
-def Interval.cos (T : Trig K) (x : Interval K) : Interval K :=
+def Interval.cos (T : TrigOps K) (x : Interval K) : Interval K :=
   if T.twoPi ≤ x.width then ⟨-1, 1⟩ else
     let cos0 := T.cos x.lo
     let cos1 := T.cos x.hi
@@ -143,6 +143,6 @@ def Interval.cos (T : Trig K) (x : Interval K) : Interval K :=
 
 /-- `sin` as an `IntervalFunction` (the test `roots_sin` of `interval.rs`): `eval = sin`, `eval_interval = Interval::sin`,
 `eval_interval_gradient = Interval::cos` -/
-def sinFun (T : Trig K) : IFun K := ⟨T.sin, Interval.sin T, Interval.cos T⟩
+def sinFun (T : TrigOps K) : IFun K := ⟨T.sin, Interval.sin T, Interval.cos T⟩
 
 end Model
